@@ -1,19 +1,65 @@
 /-
   C03 — regular-expression strings and `matches` agree with regex semantics.  Property theorems only
-  (helpers: Lemmas/Re*.lean).
+  (helpers: Lemmas/Re.lean, ReEval.lean, ReAlgebra.lean).
 -/
-import YaraModel.Lemmas.Re
+import YaraModel.Lemmas.ReAlgebra
 namespace YaraModel.C03
 open YaraModel.Re
 
 /-- The specification is self-consistent: the set-of-end-positions semantics `Re.ends` (what the compiled driver
     evaluates in the correspondence runs) coincides with the independent relational semantics `Re.Matches`, for every
-    node kind of RE_NODE_*, every flag combination, every buffer and every pair of positions. -/
+    node kind of RE_NODE_* (incl. the closures of `*` `+` `{n,m}`), every flag combination (wide, nocase, dot-all),
+    every buffer and every pair of positions. -/
 theorem ends_iff_Matches (fl : Flags) (buf : Bytes) (r : Re) (p q : Nat) :
     q ∈ r.ends fl buf p ↔ Re.Matches fl buf r p q :=
   Re.ends_iff_Matches fl buf r p q
 
 /-- non-trivial instance: `a*x` from offset 2 of `xxaaaxx` ends exactly at 6 -/
 example : (Re.cat (.star (.lit 97) true) (.lit 120)).ends {} "xxaaaxx".toUTF8.data 2 = [6] := by decide
+
+/-- The driver's fast set evaluator answers exactly the specification at every offset inside the buffer. -/
+theorem driver_evaluates_spec (fl : Flags) (buf : Bytes) (r : Re) (o : Nat) (ho : o ≤ buf.size) (q : Nat) :
+    q ∈ r.endsSet fl buf [o] ↔ Re.Matches fl buf r o q := by
+  rw [endsSet_single fl buf r o ho q]; exact Re.ends_iff_Matches fl buf r o q
+
+/-- `range_table`: the code shape `_yr_re_emit` produces for `e{n,m}` — prolog `e` when n > 0, a repeat_start/repeat_end
+    loop with the adjusted bounds (`repMin`, `repMax`) when `m > n+1 ∨ m > 2`, `split; e` (an optional `e`) when m > n or
+    a plain epilog `e` when `m > 1` — denotes exactly `e{n,m}`, for ALL n ≤ m, all bodies, buffers and positions. -/
+theorem range_table (fl : Flags) (buf : Bytes) (e : Re) (n m : Nat) (g : Bool) (hnm : n ≤ m) (p q : Nat) :
+    Re.Matches fl buf (rangeShape e n m g) p q ↔ Re.Matches fl buf (.range e n m g) p q :=
+  rangeShape_iff e n m g hnm p q
+
+/-- instances of the table rows: 0,1 / 1,3 / 2,2 / 3,3 / 4,M -/
+example : rangeShape (.lit 97) 0 1 true = .cat .empty (.cat .empty (.range (.lit 97) 0 1 true)) := by decide
+example : rangeShape (.lit 97) 1 3 true = .cat (.lit 97) (.cat (.range (.lit 97) 0 1 true) (.range (.lit 97) 0 1 true)) := by decide
+example : rangeShape (.lit 97) 2 2 true = .cat (.lit 97) (.cat .empty (.lit 97)) := by decide
+example : rangeShape (.lit 97) 3 3 true = .cat (.lit 97) (.cat (.range (.lit 97) 1 1 true) (.lit 97)) := by decide
+example : rangeShape (.lit 97) 4 9 true = .cat (.lit 97) (.cat (.range (.lit 97) 3 7 true) (.range (.lit 97) 0 1 true)) := by decide
+
+/-- counted repeats concatenate: `e{a,b} e{c,d}` = `e{a+c,b+d}` (the arithmetic behind the table) -/
+theorem range_concat (fl : Flags) (buf : Bytes) (e : Re) (a b c d : Nat) (g : Bool) (hab : a ≤ b) (hcd : c ≤ d) (p q : Nat) :
+    Re.Matches fl buf (.cat (.range e a b g) (.range e c d g)) p q ↔ Re.Matches fl buf (.range e (a + c) (b + d) g) p q := by
+  rw [cat_iff, range_iff_cnt]
+  rw [← cnt_cat e a b c d p q hab hcd]
+  constructor
+  · rintro ⟨t, h1, h2⟩; exact ⟨t, (range_iff_cnt e a b g p t).1 h1, (range_iff_cnt e c d g t q).1 h2⟩
+  · rintro ⟨t, h1, h2⟩; exact ⟨t, (range_iff_cnt e a b g p t).2 h1, (range_iff_cnt e c d g t q).2 h2⟩
+
+/-- `decompose`: with one atom chosen on every way through the expression (both branches of an alternation, one side
+    of a concatenation, the body of a `+`), a match of the whole expression exists exactly when it is found around one
+    of the atoms (before-part, atom, after-part) — the scheme "forward from the atom, exhaustively backward from the
+    atom" loses and invents nothing, with atoms inside groups, alternation branches and repeats. -/
+theorem decompose (fl : Flags) (buf : Bytes) (r : Re) (atoms : List (Ctx × Re)) (hc : Cover r atoms) (p q : Nat) :
+    Re.Matches fl buf r p q ↔ ∃ c a, (c, a) ∈ atoms ∧ c.Through fl buf a p q := by
+  constructor
+  · exact cover_complete hc p q
+  · rintro ⟨c, a, hin, ht⟩
+    have := through_sound c a p q ht
+    rwa [cover_fill hc c a hin] at this
+
+/-- instance: `(ab)+c` with the atom `ab` inside the `+` body -/
+example : Cover (.cat (.plus (.cat (.lit 97) (.lit 98)) true) (.lit 99))
+    [(.catL (.plusIn .hole true) (.lit 99), .cat (.lit 97) (.lit 98))] :=
+  .catL (.plus (.leaf _))
 
 end YaraModel.C03
